@@ -4,12 +4,27 @@ import os, sys
 sys.path.insert(0, os.path.join(os.path.dirname(os.path.abspath(__file__)), '..'))
 import common
 
-GENERATED = ('unicode', 'tagregistry', 'tagsites', 'tagstate')
+GENERATED = ('unicode', 'tagregistry', 'tagsites', 'tagstate', 'tagsfmt')
 
 def main():
     chk = common.Check('C02')
     import tags_common as P
-    proved = chk.prove('I18n.Props.C02', generated=GENERATED)
+    proved = chk.prove('I18n.Props.C02', generated=GENERATED, extra_targets=())
+    # the tie: _escape, safe_format, Tag.get_priority, Tag.format regenerated from the current lib/tags.py and proved equal to the model (Props/C02Tie.lean)
+    tie_ok = common.prove_tie(chk, 'I18n.Props.C02Tie', ('tagsfmt',),
+                              'the functions regenerated from the current lib/tags.py (_escape, safe_format, Tag.get_priority, Tag.format) are no longer proved '
+                              'equal to Tags.escape / safeFormat / priority / format (generated_*_eq_model and their corollaries)')
+    # every stream of these four functions runs a second time through the regenerated definitions (driver ops gescape / gpriority / gformat / gsformat)
+    TWIN = {'tags escape ': 'tags gescape ', 'tags priority ': 'tags gpriority ', 'tags format ': 'tags gformat ', 'tags sformat ': 'tags gsformat '}
+    plain_stream = chk.stream
+    def stream_with_twin(name, lines, outs, **kw):
+        r = plain_stream(name, lines, outs, **kw)
+        if tie_ok:
+            pairs = [(TWIN[k] + l[len(k):], o) for l, o in zip(lines, outs) for k in TWIN if l.startswith(k)]
+            if pairs:
+                plain_stream(name + '-generated', [p[0] for p in pairs], [p[1] for p in pairs])
+        return r
+    chk.stream = stream_with_twin
     R = P.Real()
     sites = P.load_sites()
     if sites is None:
